@@ -127,14 +127,15 @@ def patterns_with_prefix(prefix: str, maxlen: int) -> Iterator[str]:
 
 # ---------------------------------------------------------------- (b) rule lists
 
-SRC = {'m': 'a = 1\n_a = 2\n__a__ = 3\n__a = 4\na__ = 5\nclass C:\n    def f(self): pass\n    def _g(self): pass\n    class N:\n        x = 1\nclass _C:\n    def f(self): pass\n',
+SRC = {'m': 'a = 1\n_a = 2\n__a__ = 3\n__a = 4\na__ = 5\n_a__ = 6\n_a_ = 7\n__a_ = 8\n_ = 9\nclass C:\n    def f(self): pass\n    def _g(self): pass\n    class N:\n        x = 1\nclass _C:\n    def f(self): pass\n',
        'n': ''}
-NAMES = ['m', 'm.a', 'm._a', 'm.__a__', 'm.__a', 'm.a__', 'm.C', 'm.C.f', 'm.C._g', 'm.C.N', 'm.C.N.x', 'm._C', 'm._C.f', 'n']
+NAMES = ['m', 'm.a', 'm._a', 'm.__a__', 'm.__a', 'm.a__', 'm._a__', 'm._a_', 'm.__a_', 'm._', 'm.C', 'm.C.f', 'm.C._g', 'm.C.N', 'm.C.N.x', 'm._C', 'm._C.f', 'n']
 TARGETS = ['m.a', 'm._a', 'm.__a__', 'm.C.f', 'm._C.f', 'm.C.N.x']
 LEVELS = ['HIDDEN', 'PRIVATE', 'PUBLIC']
 
 
 def default_privacy(name: str) -> str:
+    """the manual: a name with a leading underscore is private, unless it is a dunder name (two leading AND two trailing underscores)"""
     last = name.split('.')[-1]
     dunder = len(last) > 4 and last.startswith('__') and last.endswith('__')
     return 'PRIVATE' if last.startswith('_') and not dunder else 'PUBLIC'
@@ -168,10 +169,16 @@ def shapes(target: str) -> List[str]:
             'zz.*']                     # non-matching pattern
 
 
+def parse_rules(rule_strings: Sequence[str]) -> Any:
+    """the rules as the option container delivers them: through the converter of Options.privacy (the list the user gave, in order, repeats included)"""
+    import attr
+    from pydoctor.options import Options
+    return attr.fields(Options).privacy.converter(list(rule_strings))
+
+
 def build_system(rule_strings: Sequence[str]):
     from pydoctor import model
-    from pydoctor.utils import parse_privacy_tuple
-    rules = [parse_privacy_tuple(r, '--privacy') for r in rule_strings]
+    rules = parse_rules(rule_strings)
     s = pd.new_system({'privacy': rules})
     b = s.systemBuilder(s)
     for k, v in SRC.items():
@@ -185,8 +192,7 @@ def check_rules(rules: Sequence[Tuple[str, str]], s=None) -> Tuple[List[Dict[str
     if s is None:
         s = build_system(rule_strings)
     else:
-        from pydoctor.utils import parse_privacy_tuple
-        s.options.privacy = [parse_privacy_tuple(r, '--privacy') for r in rule_strings]
+        s.options.privacy = parse_rules(rule_strings)
         s._privacyClassCache.clear()
     vs = []
     obs = []
